@@ -2,7 +2,7 @@
 From Coq Require Import List Arith NArith Bool Lia Sorting.Sorted.
 Import ListNotations.
 Require Import MayV.Rt.TimerThread MayV.Rt.TimerThreadInv.
-Open Scope N_scope.
+Local Open Scope N_scope.
 
 Ltac inv_some :=
   match goal with
